@@ -207,13 +207,15 @@ if __name__ == "__main__":
     root = os.environ.get("EON_REPO", "/repo")
     if "--freeze" in sys.argv:
         out = {}
+        from .core import normalise, canonicalise_calls
+        trees = {}
         for m in MODULES:
             with warnings.catch_warnings():
                 warnings.simplefilter("ignore")
-                tree = ast.parse(open(os.path.join(root, "EoN", m + ".py"), encoding="utf-8").read())
-            from .core import normalise
-            tree = normalise(tree)
-            for qual, fn in _functions(tree, m):
+                trees[m] = normalise(ast.parse(open(os.path.join(root, "EoN", m + ".py"), encoding="utf-8").read()))
+        canonicalise_calls(trees)
+        for m in MODULES:
+            for qual, fn in _functions(trees[m], m):
                 d, order = alpha_form(fn)
                 out[qual] = {"alpha": d, "names": order}
         json.dump(out, open(REF, "w"), indent=0, sort_keys=True)
